@@ -213,18 +213,37 @@ def check_v4(ctx, w):
         ctx.ob('W-V4', f.construct, 'entry offset = tell() before the pair', tr.get('entry_offset') == [('=', 'tell(stream)')], got=tr.get('entry_offset'))
         ctx.ob('W-V4', f.construct, 'pair of address-sized words', tr.get('begin_offset') == [('=', 'struct_parse(the_Dwarf_target_addr,stream)')] and
                tr.get('end_offset') == [('=', 'struct_parse(the_Dwarf_target_addr,stream)')], got=(tr.get('begin_offset'), tr.get('end_offset')))
-        chains = [n for n in ast.walk(f.node) if isinstance(n, ast.If) and 'begin_offset == 0' in U(n.test)]
-        ok = len(chains) == 1
-        if ok:
-            c = chains[0]
-            t1 = expr.cond_str(c.test, env)
-            ok = t1 == expr.spec_cond('begin_offset == 0 and end_offset == 0') and any(isinstance(x, ast.Break) for x in c.body)
-            nxt = c.orelse[0] if len(c.orelse) == 1 and isinstance(c.orelse[0], ast.If) else None
-            ok = ok and nxt is not None and expr.cond_str(nxt.test, env) == expr.spec_cond('begin_offset == _max_addr')
-            if ok:
-                base = U(nxt.body[-1])
-                ok = 'BaseAddressEntry(' in base and 'base_address=end_offset' in base
-        ctx.ob('W-V4', f.construct, '(0,0) ends; (max address, x) selects base x; else entry', ok,
+        # decision over one iteration, read off the paths: (0, 0) leaves the loop with nothing kept; otherwise (max address, x)
+        # keeps a base-address entry with base x; otherwise an entry of the list's kind is kept
+        lps = [n for n in ast.walk(f.node) if isinstance(n, ast.While)]
+        ok = len(lps) == 1
+        seen = set()
+        why = None
+        for p in (paths.enum_paths(lps[0].body) if ok else []):
+            facts = expr.Facts(expr.CP(expr.cond_str(t, env), pol) for t, pol in p.conds())
+            if facts.contradiction:
+                continue
+            stm = [U(x) for x in p.stmts()]
+            kept = [x for x in stm if '.append(' in x or 'Entry(' in x]
+            end0 = facts.truth('begin_offset == 0 and end_offset == 0', env)
+            mx = facts.get(expr.spec_cond('begin_offset == _max_addr'))
+            if end0 is True:
+                seen.add('end')
+                good = not kept and p.end[0] in ('break', 'return')
+            elif end0 is False and mx is True:
+                seen.add('base')
+                good = len([x for x in kept if 'BaseAddressEntry(' in x and 'base_address=end_offset' in x]) == 1 and p.end[0] == 'fall' and \
+                    not any(('LocationEntry(' in x or 'RangeEntry(' in x) for x in kept)
+            elif end0 is False and mx is False:
+                seen.add('entry')
+                good = any((('LocationEntry(' if kind == 'loc' else 'RangeEntry(') in x) for x in kept) and not any('BaseAddressEntry(' in x for x in kept) and \
+                    p.end[0] == 'fall'
+            else:
+                good = False
+            if not good:
+                ok, why = False, (dict(facts), kept, p.end[0])
+        ok = ok and seen == {'end', 'base', 'entry'}
+        ctx.ob('W-V4', f.construct, '(0,0) ends; (max address, x) selects base x; else entry', ok, got=why or sorted(seen),
                msg='list terminator / base-selection sentinel handling differs from DWARF §2.6.2 / §2.17.3')
         if kind == 'loc':
             ctx.ob('W-V4', f.construct, 'u16 expression length then that many bytes',
@@ -250,9 +269,13 @@ def check_v4(ctx, w):
     env = expr.FEnv(f.node, params=('offset', 'die'))
     ops = [o.t() for o in streams.func_ops(f.node, env)]
     ctx.ob('W-V4', f.construct, 'absolute seek to the list offset', ops == [('seek', 'stream', 'offset', 'SEEK_SET')], got=ops)
-    rets = [expr.nfs(r.value, env) for r in expr.returns_of(f.node)]
+    rr = expr.return_rows(f.node, env)
+    v5 = expr.spec_cond('version >= 5')
+    by = {}
+    for conds, out in rr:
+        by.setdefault(expr.Facts(conds).get(v5), set()).add(out)
     ctx.ob('W-V4', f.construct, 'v5 parser with the DIE\'s unit iff version >= 5',
-           rets == [expr.spec_nf('_parse_location_list_from_stream_v5(self, cu) if version >= 5 else _parse_location_list_from_stream(self)')], got=rets)
+           by == {True: {'_parse_location_list_from_stream_v5(self,cu)'}, False: {'_parse_location_list_from_stream(self)'}}, got=rr)
     f = w.model.func(RG, 'RangeLists.get_range_list_at_offset')
     env = expr.FEnv(f.node, params=('offset', 'cu'))
     ops = [o.t() for o in streams.func_ops(f.node, env)]
